@@ -42,6 +42,7 @@ static struct {
 	 * has finished changing its queues); later ones may or may not be seen */
 	uint16_t ra_seq, last_write_seq, pass_seq; uint16_t ra_first_seq[NFIB];
 	uint8_t ra_inpass[NFIB];	/* requests accepted since the current pass began */
+	uint8_t ev_killed[4];		/* the handler fibre was killed while the send of this slot was in progress */
 	uint8_t racall_f[8], disp_during[8];	/* per interrupt-side actor: the fibre (+1) its fibre_run_atomic call in progress names / that fibre
 					 * began a dispatch while the call was in progress (the request may already be consumed) */
 	uint8_t ra_ev;			/* how many of the pending requests for H were posted by fibre_eventq_send rather than by a caller */
@@ -174,7 +175,7 @@ void orc_main_call(int act, int begin, int result)
 		if (f == F_Z) G.sleeping = 0;
 		/* killing the handler fibre withdraws the wake-ups of the events sent so far: they stay queued (still
 		 * checked for order and content if the fibre runs again) but nothing obliges a dispatch any more */
-		if (f == F_H) for (int i = 0; i < 4; i++) G.evmust[i] = 0;
+		if (f == F_H) for (int i = 0; i < 4; i++) { G.evmust[i] = 0; if (G.evst[i] == EV_SENDING) G.ev_killed[i] = 1; }
 		(void)result;
 		break;
 	case MA_RA_H:
@@ -209,7 +210,8 @@ void orc_ev_sent(int slot, bool ok)
 	vs_trace("interrupt side: fibre_eventq_send(slot %d) -> %d", slot, ok);
 	clamp_ra_ev();
 	/* the handler fibre may already have consumed it (free threads) */
-	if (G.evst[slot] == EV_SENDING) { G.evst[slot] = EV_SENT; G.evmust[slot] = ok; G.ev_sseq[slot] = ++G.evseq; }
+	if (G.evst[slot] == EV_SENDING) { G.evst[slot] = EV_SENT; G.evmust[slot] = ok && !G.ev_killed[slot]; G.ev_sseq[slot] = ++G.evseq; }
+	G.ev_killed[slot] = 0;
 	/* the wake-up a successful send posts is tracked like a request (C03 needs it for the returned time), but what the
 	 * statement obliges is the delivery of the EVENT (evmust), not one dispatch per send: see scn_end */
 	if (ok) { n_ev_ok++; G.ra_seq++; if (!G.ra[F_H]) G.ra_first_seq[F_H] = G.ra_seq; if (G.ra[F_H] < 200) { G.ra[F_H]++; G.ra_ev++; } if (G.in_pass) G.ra_inpass[F_H] = 1; if (C6.threads) G.sticky[F_H] = 1; } else n_ev_send_false++;
